@@ -80,17 +80,11 @@ Bin(o, a, b) == [op |-> o, l |-> a, r |-> b]
 BoolLeaves == {Lit("a", "x"), Lit("b", "x"), Lit("c", "x")}
 RichLeaves == {Lit("a", "x"), Lit("p", "x"), Lit("t", "y"),
                InLeaf("a", <<"x", "y">>), WordsLeaf("t", <<"x", "y">>)}
-\* the random trees also use three-element lists and phrases
-Rich3Leaves == RichLeaves \cup {InLeaf("a", <<"y", "x", "z">>), WordsLeaf("t", <<"z", "x", "y">>)}
-Leaves == CASE LeafSet = "bool" -> BoolLeaves [] LeafSet = "rich" -> RichLeaves [] LeafSet = "rich3" -> Rich3Leaves
 \* mapping used for the semantic cases (seq.Mapping built by the driver from this record)
 FieldTypes == [a |-> "keyword", b |-> "keyword", c |-> "keyword", p |-> "path", t |-> "text"]
 
 IsLeaf(x) == x.op \in {"lit", "in", "words", "phrase", "kw", "inp"}
 
-RECURSIVE T(_)
-T(n) == IF n = 0 THEN Leaves
-        ELSE LET S == T(n - 1) IN S \cup [op : {"not"}, l : S] \cup [op : {"and", "or"}, l : S, r : S]
 
 Range(s) == {s[i] : i \in DOMAIN s}
 
@@ -228,6 +222,16 @@ LegacyToks(p, isText) == LTLoop(p, 1, <<>>, <<>>, "", isText)
 PhraseLeaf(f, p) == [op |-> "phrase", f |-> f, rs |-> p, ws |-> Pats(RefLits(p))]
 KwLeaf(f, p) == [op |-> "kw", f |-> f, rs |-> p, ws |-> <<PatOf(RefKw(p))>>]
 InPLeaf(f, ps) == [op |-> "inp", f |-> f, els |-> [i \in DOMAIN ps |-> PhraseLeaf(f, ps[i])]]
+
+\* the random trees also use three-element lists and phrases, and phrases whose separators are multi-byte runes
+Rich3Leaves == RichLeaves \cup {InLeaf("a", <<"y", "x", "z">>), WordsLeaf("t", <<"z", "x", "y">>),
+                                PhraseLeaf("t", PhraseOf(<<"x", "<U+2014>", "<SP>", "y">>)),
+                                InPLeaf("t", <<PhraseOf(<<"y", "<U+1F600>", "x">>), PhraseOf(<<"K", "<U+0416>">>)>>)}
+
+Leaves == CASE LeafSet = "bool" -> BoolLeaves [] LeafSet = "rich" -> RichLeaves [] LeafSet = "rich3" -> Rich3Leaves
+RECURSIVE T(_)
+T(n) == IF n = 0 THEN Leaves
+        ELSE LET S == T(n - 1) IN S \cup [op : {"not"}, l : S] \cup [op : {"and", "or"}, l : S, r : S]
 
 \* what the field-filter parsers build for a leaf:
 \*   parseFilterIn: left-associated OR of literals; parseSeqQLText / textTokenBuilder + buildAndTree:
